@@ -77,3 +77,7 @@ package render
 //@   modifies sizerState(pg.sizer)
 //@   ensures @fits result1 == nil && pg.sizer != nil && pg.sizer.outputSize > 0 ==> len(result0) <= int(pg.sizer.outputSize)
 //@   ensures @err result1 != nil ==> result0 == ""
+
+//@ func NewSizer
+//@   serves C01
+//@   ensures fresh(result) && sizerOk(result) && result.outputSize == outputSize && fresh(result.memberSizes) && len(result.crsrs) == 0 && result.sink == ""
